@@ -71,6 +71,10 @@ func init() {
 	}
 	res := Start(cfg)
 	_ = res
+	if os.Getenv("VERIF_START_TWICE") != "" {
+		// a program that calls Start a second time (a library and its host both do)
+		Start(cfg)
+	}
 	os.Exit(0)
 }
 
@@ -666,6 +670,84 @@ func TestVerifC16Token(t *testing.T) {
 		}
 		os.RemoveAll(work)
 	}
+	// one process calling Start twice with the upload flag: the second call finds
+	// the token the first one took
+	tw := verifrt.Scale(4, 60)
+	for k := 0; k < tw; k++ {
+		work, _ := os.MkdirTemp(e.base, "twice")
+		tdir := filepath.Join(work, "xdg", "go", "telemetry")
+		os.MkdirAll(filepath.Join(tdir, "local"), 0o777)
+		os.WriteFile(filepath.Join(tdir, "mode"), []byte([]string{"local", "on 2020-01-01"}[k%2]), 0o666)
+		logPath := filepath.Join(work, "procs.log")
+		runID := fmt.Sprintf("tw-%d-%d-%d", os.Getpid(), k, time.Now().UnixNano())
+		cmd := exec.Command(os.Args[0])
+		env := []string{}
+		for _, kv := range os.Environ() {
+			kk := strings.SplitN(kv, "=", 2)[0]
+			switch kk {
+			case "GO_TELEMETRY_CHILD", "GO_TELEMETRY_CHILD_UPLOAD", "XDG_CONFIG_HOME", "HOME", "PATH", "VERIF_BATCH":
+				continue
+			}
+			env = append(env, kv)
+		}
+		cmd.Env = append(env, "XDG_CONFIG_HOME="+filepath.Join(work, "xdg"), "HOME="+work, "PATH="+e.bindir+":"+os.Getenv("PATH"), "VERIF_START_APP=1", "VERIF_START_LOG="+logPath, "VERIF_START_TWICE=1",
+			"VERIF_START_CFG="+[]string{"upload", "upload,crash"}[(k/2)%2], "VERIF_START_URL=http://127.0.0.1:1/upload", "VERIF_RUN_ID="+runID, "GOPROXY=off", "GOFLAGS=", "VERIF_START_UPLOADTIME="+c16UploadTime())
+		cmd.SysProcAttr = &syscall.SysProcAttr{Setsid: true}
+		cmd.Run()
+		res.Eval()
+		res.Distinct(fmt.Sprintf("twice/%d", k))
+		if !waitGone(runID, 20*time.Second) {
+			res.Inconc("start-twice history: descendants still alive")
+			os.RemoveAll(work)
+			continue
+		}
+		ups := 0
+		for _, r := range readLog(logPath) {
+			if r.Marker == "1" && r.Upload == "1" {
+				ups++
+			}
+		}
+		res.Hit("start-twice-history")
+		if ups > 1 {
+			res.Violate("token-acquired-twice", fmt.Sprintf("one process called Start twice with the upload flag: %d uploading sidecars were launched within the token's period", ups), map[string]any{"history": "start-twice", "k": k})
+		} else if ups == 1 {
+			res.Hit("start-twice:one-uploading-sidecar")
+		}
+		os.RemoveAll(work)
+	}
+	// a token in the last second of its period: still fresh
+	ls := verifrt.Scale(5, 40)
+	for k := 0; k < ls; k++ {
+		dir, _ := os.MkdirTemp(e.base, "lastsec")
+		itelemetry.Default = itelemetry.NewDir(dir)
+		os.MkdirAll(itelemetry.Default.LocalDir(), 0o777)
+		tp := filepath.Join(itelemetry.Default.LocalDir(), "upload.token")
+		os.WriteFile(tp, nil, 0o666)
+		// (start early in a wall-clock second, so that the token's sub-second part
+		// can lie beyond the current one)
+		t0 := time.Now()
+		for w := 0; t0.Nanosecond() > 100e6 && w < 2000; w++ {
+			time.Sleep(time.Millisecond)
+			t0 = time.Now()
+		}
+		at := t0.Add(-24*time.Hour + time.Duration([]int{300, 500, 700}[k%3])*time.Millisecond)
+		os.Chtimes(tp, at, at)
+		got := c16Acquire()
+		fi, err := os.Stat(tp)
+		res.Eval()
+		if err == nil && fi.ModTime().Equal(at) && time.Since(at) < 24*time.Hour {
+			// (measured after the call: the token was younger than a day throughout)
+			res.Hit("fresh-token-age:last-second")
+			res.Distinct(fmt.Sprintf("lastsec/%d", k))
+			if got {
+				res.Violate("token-acquired-twice", fmt.Sprintf("a token taken %v ago (less than 24 hours) was taken again", time.Since(at)), map[string]any{"history": "last-second", "k": k})
+			}
+		} else if err == nil && !fi.ModTime().Equal(at) && time.Since(at) < 24*time.Hour {
+			res.Violate("token-acquired-twice", fmt.Sprintf("a token taken %v ago (less than 24 hours) was replaced", time.Since(at)), map[string]any{"history": "last-second", "k": k})
+		}
+		itelemetry.Default = saved
+		os.RemoveAll(dir)
+	}
 	// a starter that takes the token but cannot launch its sidecar (the debug
 	// directory holds something unopenable where the sidecar's log goes): the
 	// token stays taken, so a second starter within the period gets none
@@ -725,7 +807,7 @@ func TestVerifC16Token(t *testing.T) {
 		}
 		os.RemoveAll(work)
 	}
-	res.Require("launch-failure-history", "strategy:park", "strategy:pct", "one-winner", "real-race-round", "fault:OpenFile", "fault:Stat", "fault-on-every-or-last-starter", "local-zone:spring-forward", "local-zone:fall-back", "fresh-token-age:23h30m0s", "fresh-token-age:-3h0m0s")
+	res.Require("launch-failure-history", "start-twice-history", "start-twice:one-uploading-sidecar", "fresh-token-age:last-second", "strategy:park", "strategy:pct", "one-winner", "real-race-round", "fault:OpenFile", "fault:Stat", "fault-on-every-or-last-starter", "local-zone:spring-forward", "local-zone:fall-back", "fresh-token-age:23h30m0s", "fresh-token-age:-3h0m0s")
 	if err := res.Write(); err != nil {
 		t.Fatal(err)
 	}
